@@ -810,11 +810,20 @@ func findSinkType(params *filterParams, parent ast.Node, kv *ast.KeyValueExpr, e
 		case *types.Array:
 			return typ.Elem()
 		case *types.Map:
-			if astutil.Unparen(kv.Key) == e {
+			if kv != nil && astutil.Unparen(kv.Key) == e {
 				return typ.Key()
 			}
 			return typ.Elem()
 		case *types.Struct:
+			if kv == nil {
+				// A positional struct literal: the i-th element initializes the i-th field.
+				for i, elt := range parent.Elts {
+					if astutil.Unparen(elt) == e && i < typ.NumFields() {
+						return typ.Field(i).Type()
+					}
+				}
+				break
+			}
 			fieldName, ok := kv.Key.(*ast.Ident)
 			if !ok {
 				break
